@@ -29,33 +29,6 @@ Proof.
   repeat split; vm_compute; reflexivity.
 Qed.
 
-(* finding setparam-unexported: ScaledInteger(0.5, 0, 10): setParameterFromString("2.5") is refused by the node (the
-   float 2.5 is sent instead of the integer 5), setParameterFromString("2") sets the node to 1.0 instead of 2.0;
-   with export_value both would arrive unchanged *)
-Theorem C02_refuted_setparam_scaled :
-  exists d v t, valid d v = true /\ to_string C0 d v = Ok t /\
-                set_from_string C0 E0 d d t = Err EWrongType /\
-                res_same (set_from_string_exported C0 E0 d d t) (Ok v) = true.
-Proof.
-  exists (TScaled (fmk 1 (-1)) fzero (of_Z 10)), (PFloat (fmk 5 (-1))), (PA [50;46;53]%N).
-  repeat split; vm_compute; reflexivity.
-Qed.
-Theorem C02_refuted_setparam_scaled_value :
-  exists d v t, valid d v = true /\ to_string C0 d v = Ok t /\
-                res_same (set_from_string C0 E0 d d t) (Ok (PFloat (of_Z 1))) = true /\
-                res_same (set_from_string_exported C0 E0 d d t) (Ok v) = true.
-Proof.
-  exists (TScaled (fmk 1 (-1)) fzero (of_Z 10)), (PFloat (of_Z 2)), (PA [50]%N).
-  repeat split; vm_compute; reflexivity.
-Qed.
-
-(* ... and an enum parameter cannot be set at all *)
-Theorem C02_refuted_setparam_enum :
-  exists d v t, valid d v = true /\ to_string C0 d v = Ok t /\ set_from_string C0 E0 d d t = Err EType.
-Proof.
-  exists (TEnum [([97%N], 1%Z); ([98%N], 2%Z)]), (PEnum [97%N] 1), (PA [97%N]). repeat split; vm_compute; reflexivity.
-Qed.
-
 (* finding client-string-maxchars: StringType(3) rebuilt on the client refuses the valid value "hello" *)
 Theorem C02_refuted_client_string :
   exists d dc v, valid d v = true /\ client_of d = Ok dc /\ dt_export C0 d v = Ok v /\
